@@ -11,6 +11,7 @@ import (
 	"path/filepath"
 	"regexp"
 	"sort"
+	"strconv"
 	"strings"
 
 	"verif/checker/core"
@@ -76,6 +77,7 @@ func c03(c *core.Check) {
 		fmt.Sprintf("captures in %v can begin at input offset 0: pegText reads buffer[-1] and panics", cs))
 	c03nested(c, g)
 	c03intSpellings(c)
+	c03annotationsAppend(c)
 	c03annotations(c)
 	// ---- SHAPE
 	c03shape(c, g)
@@ -671,6 +673,12 @@ func c03annotations(c *core.Check) {
 func c03intSpellings(c *core.Check) {
 	pk := c.Prog.Pkg("parser")
 	info := pk.TypesInfo
+	// spellings of the grammar's IntConstant (`0x` hex / `0o` octal / [+-]? Digit+, the last one decimal whatever its
+	// leading digit) and the value each denotes
+	samples := []struct {
+		text string
+		want int64
+	}{{"7", 7}, {"+7", 7}, {"-12", -12}, {"010", 10}, {"08", 8}, {"-012", -12}, {"0x1F", 31}, {"0o17", 15}, {"0", 0}}
 	n := 0
 	for _, f := range pk.Syntax {
 		if !strings.HasSuffix(c.Prog.Fset.File(f.Pos()).Name(), "/parser.go") {
@@ -681,7 +689,9 @@ func c03intSpellings(c *core.Check) {
 			if !ok || fd.Body == nil {
 				continue
 			}
-			bases := map[string]map[int64]bool{}
+			// the conversions of one text, in source order, form a fallback chain (the next one is tried when the
+			// previous one fails)
+			chain := map[string][]int64{}
 			pos := map[string]ast.Node{}
 			for _, call := range rules.Calls(fd.Body, true) {
 				fn := rules.Callee(info, call)
@@ -693,26 +703,85 @@ func c03intSpellings(c *core.Check) {
 					continue
 				}
 				t := rules.ExprString(call.Args[0])
-				if bases[t] == nil {
-					bases[t] = map[int64]bool{}
+				if _, seen := pos[t]; !seen {
 					pos[t] = call
 				}
-				bases[t][b] = true
+				chain[t] = append(chain[t], b)
 			}
 			var ts []string
-			for t := range bases {
+			for t := range chain {
 				ts = append(ts, t)
 			}
 			sort.Strings(ts)
 			for _, t := range ts {
 				n++
-				c.Decide(bases[t][0], "int-spellings-accepted", fmt.Sprintf("parser.%s/ParseInt(%s)", fd.Name.Name, t), c.Prog.Rel(pos[t].Pos()),
-					"parsed with base 0 (decimal, 0x, 0o) on some path",
-					fmt.Sprintf("the integer text %s is only parsed in base %v: the grammar also accepts 0x… and 0o… there, and such a value silently becomes 0", t, keysOf(bases[t])))
+				bad := ""
+				for _, sm := range samples {
+					got, ok := int64(0), false
+					for _, b := range chain[t] {
+						if v, err := strconv.ParseInt(sm.text, int(b), 64); err == nil {
+							got, ok = v, true
+							break
+						}
+					}
+					if !ok {
+						bad = fmt.Sprintf("the spelling %q, which the grammar accepts, is not convertible by the base sequence %v: the value is lost (or the document rejected)", sm.text, chain[t])
+						break
+					}
+					if got != sm.want {
+						bad = fmt.Sprintf("the spelling %q denotes %d but the base sequence %v yields %d", sm.text, sm.want, chain[t], got)
+						break
+					}
+				}
+				c.Decide(bad == "", "int-spellings-accepted", fmt.Sprintf("parser.%s/ParseInt(%s)", fd.Name.Name, t), c.Prog.Rel(pos[t].Pos()),
+					fmt.Sprintf("base sequence %v converts every IntConstant spelling to the value it denotes (%d samples)", chain[t], len(samples)), bad)
 			}
+			// the error of a conversion is not thrown away: `x, _ = <conversion>(…)` makes garbage (0xZZ, overflow) a silent 0 / MaxInt
+			ast.Inspect(fd.Body, func(m ast.Node) bool {
+				as, ok := m.(*ast.AssignStmt)
+				if !ok || len(as.Lhs) != 2 || len(as.Rhs) != 1 {
+					return true
+				}
+				call, ok := as.Rhs[0].(*ast.CallExpr)
+				if !ok {
+					return true
+				}
+				fn := rules.Callee(info, call)
+				if fn == nil || !(fn.Pkg() != nil && fn.Pkg().Path() == "strconv" && (fn.Name() == "ParseInt" || fn.Name() == "ParseFloat") || fn.Pkg() == pk.Types && convertsInt(c, fn)) {
+					return true
+				}
+				if fn.Name() == "ParseFloat" {
+					return true // doubles: the grammar's DoubleConstant is a subset of what ParseFloat accepts (C17 double rules)
+				}
+				n++
+				id, isID := as.Lhs[1].(*ast.Ident)
+				c.Decide(!(isID && id.Name == "_"), "int-conversion-error-kept", fmt.Sprintf("parser.%s/%s", fd.Name.Name, rules.ExprString(call)), c.Prog.Rel(as.Pos()),
+					"the conversion's error is kept", "the error of the integer conversion is discarded: a text the grammar accepts but no integer denotes (0xZZ, a 20-digit number) silently becomes 0 or the type's extreme value instead of being reported")
+				return true
+			})
 		}
 	}
-	c.Min("int-spellings-accepted", 3)
+	c.Min("int-spellings-accepted", 1)
+	c.Min("int-conversion-error-kept", 3)
+}
+
+// convertsInt reports whether a parser-package function wraps strconv.ParseInt and returns its error.
+func convertsInt(c *core.Check, fn *types.Func) bool {
+	sig, ok := fn.Type().(*types.Signature)
+	if !ok || sig.Results().Len() != 2 || sig.Results().At(1).Type().String() != "error" {
+		return false
+	}
+	fd := c.Prog.FuncDecl("parser", fn.Name())
+	if fd == nil || fd.Body == nil {
+		return false
+	}
+	info := c.Prog.Pkg("parser").TypesInfo
+	for _, call := range rules.Calls(fd.Body, true) {
+		if f := rules.Callee(info, call); f != nil && f.Pkg() != nil && f.Pkg().Path() == "strconv" && f.Name() == "ParseInt" {
+			return true
+		}
+	}
+	return false
 }
 
 func keysOf(m map[int64]bool) []int64 {
@@ -722,4 +791,91 @@ func keysOf(m map[int64]bool) []int64 {
 	}
 	sort.Slice(ks, func(i, j int) bool { return ks[i] < ks[j] })
 	return ks
+}
+
+// c03annotationsAppend: "repeated keys accumulate in order". The walker hands every written key/value pair to
+// Annotations.Append (its only way to record one; annotations-cursor-assigned covers the hand-over), so Append has to
+// record each pair it is given. Rule (go/cfg of Append): every path from the entry to an exit of the function passes an
+// `append(…)` whose arguments mention the value parameter.
+func c03annotationsAppend(c *core.Check) {
+	fd := c.Prog.FuncDecl("parser", "Annotations.Append")
+	key := "parser.(Annotations).Append/value"
+	if fd == nil || fd.Body == nil {
+		c.Unknown("anchor", "parser.(Annotations).Append", "", "missing")
+		return
+	}
+	info := c.Prog.Pkg("parser").TypesInfo
+	// the value parameter: the last string parameter
+	var valueObj types.Object
+	for _, f := range fd.Type.Params.List {
+		for _, nm := range f.Names {
+			valueObj = info.Defs[nm]
+		}
+	}
+	if valueObj == nil {
+		c.Unknown("annotation-pair-always-recorded", key, c.Prog.Rel(fd.Pos()), "no value parameter")
+		return
+	}
+	records := func(n ast.Node) bool {
+		found := false
+		ast.Inspect(n, func(m ast.Node) bool {
+			call, ok := m.(*ast.CallExpr)
+			if !ok || !rules.IsBuiltin(info, call, "append") {
+				return true
+			}
+			for _, a := range call.Args[1:] {
+				ast.Inspect(a, func(k ast.Node) bool {
+					if id, ok := k.(*ast.Ident); ok && info.Uses[id] == valueObj {
+						found = true
+					}
+					return true
+				})
+			}
+			return true
+		})
+		return found
+	}
+	g := rules.CFG(info, fd.Body, nil)
+	seen := map[int32]bool{}
+	var escape ast.Node
+	escaped := false
+	var visit func(b *cfg.Block)
+	visit = func(b *cfg.Block) {
+		if seen[b.Index] || escaped {
+			return
+		}
+		seen[b.Index] = true
+		for _, nd := range b.Nodes {
+			if records(nd) {
+				return // recorded on this path
+			}
+			if _, ok := nd.(*ast.ReturnStmt); ok {
+				escaped, escape = true, nd
+				return
+			}
+		}
+		if len(b.Succs) == 0 {
+			if !b.Live {
+				return
+			}
+			escaped = true
+			if len(b.Nodes) > 0 {
+				escape = b.Nodes[len(b.Nodes)-1]
+			}
+			return
+		}
+		for _, s := range b.Succs {
+			visit(s)
+		}
+	}
+	if len(g.Blocks) > 0 {
+		visit(g.Blocks[0])
+	}
+	where := c.Prog.Rel(fd.Pos())
+	if escape != nil {
+		where = c.Prog.Rel(escape.Pos())
+	}
+	c.Decide(!escaped, "annotation-pair-always-recorded", key, where,
+		"every path through Append appends the value it was given",
+		"Append can return without recording the value it was given: a written annotation pair (for instance a value repeated under the same key) is missing from the AST, so repeated keys do not accumulate every value in order")
 }
